@@ -103,6 +103,8 @@ def gen_c01(tier, seed):
     # (d') ECI headers at the capacity boundaries (sizing = what is written), per-part encodings
     for c in gen.eci_boundary_calls(call, not thorough):
         add(c)
+    for c in gen.multipart_boundary_calls(call, not thorough):
+        add(c)
     # (d'') content that ends in a line feed / carriage return / NUL (regular expressions with $ instead of \\Z accept a trailing \\n)
     for base in ('123', 'AB', 'abc', '\u70b9\u8317', gen.kanji(r, 5), gen.digits(r, 8), gen.alnum(r, 7)):
         for tail in ('\n', '\r', '\r\n', '\x00', '\n\n', ' '):
@@ -518,6 +520,16 @@ def gen_c03(tier, seed):
                 specs.append((c, [fault_pattern(r, v, e, lambda ec: ec // 2)], False))
         specs.append((call('make', b'\x11' * d + b'\xce' * (d - 2), version=v, error=e, boost_error=False), [fault_pattern(r, v, e, lambda ec: 1)], False))
         specs.append((call('make', 'A', version=v, error=e, boost_error=False), [fault_pattern(r, v, e, lambda ec: ec // 2)], False))
+    # all-zero / all-one data codewords in every layout with two block groups (a zero codeword at the end of a longer block, at a block
+    # boundary, in the last row of the interleaving must survive like any other value)
+    for v in range(1, 41):
+        for e in QR_LEVELS:
+            lay = T.layout(v, e)
+            if len({b[0] for b in lay}) < 2 or (tier == 'quick' and v > 24 and (v + QR_LEVELS.index(e)) % 4):
+                continue
+            nmax = T.max_chars(v, e, 'byte')
+            for content in (b'\x00' * nmax, b'\xff' * (nmax - 1), b'\x00' * (nmax // 2)):
+                specs.append((call('make', content, version=v, error=e, boost_error=False), [fault_pattern(r, v, e, lambda ec: 1)], False))
     # data codeword sequences that start with zero codewords (M4, numeric, one digit: 000 000001 dddd)
     for e in ('L', 'M', 'Q'):
         for d in ('0', '7'):
@@ -678,6 +690,12 @@ def gen_c13(tier, seed):
         calls.append(call('make', gen.digits(r, n)))
         calls.append(call('make', gen.latin1(r, n), micro=False))
     calls.append(call('make', ['12', 'AB', 'cd']))
+    # multi-block symbols, every numeric / alphanumeric length: the terminated stream ends at every position relative to the block
+    # boundaries (the pad codewords that follow must not depend on where a block ends or on the last data codeword)
+    for v, e in (((3, 'H'), (4, 'Q'), (5, 'Q'), (5, 'H')) if tier == 'quick' else [(v, e) for v in range(3, 11) for e in QR_LEVELS if len(T.layout(v, e)) > 1]):
+        for mode in ('numeric', 'alphanumeric'):
+            for n in range(1, T.max_chars(v, e, mode) + 1):
+                calls.append(content_call(r, v, e, mode, n))
     # the middle of every range: random version, level, mode and length (thorough: many)
     for _ in range(60 if tier == 'quick' else 1500):
         v = r.choice(ALLV)
